@@ -358,6 +358,16 @@ fn launch_rdp_thread<S: 'static + Read + Write + Send>(
     }))
 }
 
+/// verif hook: lets the verification harness start the private receive thread
+#[cfg(rdp_rs_verif)]
+pub fn verif_launch_rdp_thread<S: 'static + Read + Write + Send>(
+    handle: usize,
+    rdp_client: Arc<Mutex<RdpClient<S>>>,
+    sync: Arc<AtomicBool>,
+    bitmap_channel: Sender<BitmapEvent>) -> RdpResult<JoinHandle<()>> {
+    launch_rdp_thread(handle, rdp_client, sync, bitmap_channel)
+}
+
 /// This is the main loop
 /// Print Window and handle all input (mous + keyboard)
 /// to RDP
